@@ -34,12 +34,9 @@ CLOCKS = re.compile(r"^std::time::|^std::env::|^std::thread::current|^std::threa
 RAYON_OK_ITER = {"rayon::vec::IntoIter", "rayon::slice::Iter", "rayon::slice::IterMut"}
 INTERIOR_MUT = re.compile(r"Atomic|Mutex|RwLock|Cell<|RefCell|OnceLock|LazyLock|OnceCell|Lazy<")
 
-# exact-key exemptions (reported, not armed) with the reason; anything else is a violation
-REPORTED_NOT_ARMED = {
-    "ptr-order:<geo::algorithm::sweep::im_segment::IMSegment<C> as core::cmp::PartialOrd>::partial_cmp":
-        "tie-break by Rc address only between segments that compare equal geometrically; 200 repetitions with heap perturbation "
-        "(three identical overlapping segments plus crossers) showed no difference in the public iteration order; no failing input known",
-}
+# exact-key exemptions (reported, not armed) with the reason; anything else is a violation.  Empty since round 5: the one former entry
+# (IMSegment::partial_cmp's Rc-address tie-break) now has a failing input and is a known finding (known_findings.txt).
+REPORTED_NOT_ARMED = {}
 
 
 def ordered_type(ty):
@@ -200,7 +197,8 @@ def taint_rules(rep, F, tag="", controls=True):
                 rep.info.setdefault("reported_not_armed", {})[key] = {"why": REPORTED_NOT_ARMED[base_key], "sites": sites}
                 rep.ok("R20.2", "exempt:" + key)
                 continue
-            rep.bad("R20.2", key, "%s (source: %s); %d flow(s) at %s" % (msg, lab, len(items), ", ".join(sites[:6])),
+            # the key names the function, whatever feature configuration is analysed (one defect, one key; the configuration is in the message)
+            rep.bad("R20.2", base_key, "%s%s (source: %s); %d flow(s) at %s" % (msg, tag and " " + tag, lab, len(items), ", ".join(sites[:6])),
                     where="%s:%s" % (fn.rel_file, c.line), detail={"flows": [(f.path, cc.line, m) for f, cc, m, _ in items][:10]})
         # every function that has a source but no finding is an instance that passed
         clean = {fp for (fp, lab) in srcs} - set(bad_fns)
